@@ -139,3 +139,54 @@ func init() {
 	addMutant(Mutant{Prop: "C15", Name: "named-pointer-extra-star", File: "ssa/abi/type.go",
 		Old: "return (b.TFlag(t.Underlying()) &^ abi.TFlagExtraStar) | abi.TFlagNamed", New: "return b.TFlag(t.Underlying()) | abi.TFlagNamed", Expect: "R15.4 abi.Builder.TFlag named types"})
 }
+
+// checkExportedMethodsFirst (R15.7): the reader (runtime/abi UncommonType.ExportedMethods, used by reflect's
+// NumMethod/Method/MethodByName) takes the FIRST Xcount entries of the method table as the exported methods.
+// go/types orders a method set by Id: "pkgpath.name" for unexported, "Name" for exported - exported-first only
+// when the package path sorts after every upper-case letter.  The writer must establish the order itself.
+func checkExportedMethodsFirst(c *Ctx, sp, rtabi *packages.Package) {
+	c.Rule("R15.7", "the descriptor's method table lists exported methods first, as the reader that takes its first Xcount entries requires, independently of how the package path sorts", 1)
+	// reader contract
+	rd := findFunc(rtabi, "UncommonType.ExportedMethods")
+	prefix := rd != nil && strings.Contains(strings.ReplaceAll(srcOf(rd.Body), " ", ""), "i<int(t.Xcount)")
+	if !prefix {
+		c.Undecided("R15.7", "abi.UncommonType.ExportedMethods reads a prefix", 0, "reader not found or no longer a prefix of Xcount entries")
+		return
+	}
+	fd := findFunc(sp, "Builder.abiUncommonMethods")
+	if fd == nil {
+		c.Undecided("R15.7", "ssa.Builder.abiUncommonMethods", 0, "function not found")
+		return
+	}
+	c.nfuncs++
+	info := sp.TypesInfo
+	ordered := false
+	for _, name := range []string{"Builder.abiUncommonMethods", "Builder.abiUncommonMethodSet", "Builder.abiUncommonType"} {
+		f := findFunc(sp, name)
+		if f == nil {
+			continue
+		}
+		for _, call := range callsIn(f.Body) {
+			if g := calleeOf(info, call); g != nil && g.Pkg() != nil && (g.Pkg().Path() == "sort" || g.Pkg().Path() == "slices") {
+				if strings.Contains(srcOf(call), "IsExported") {
+					ordered = true
+				}
+			}
+		}
+	}
+	// or: two emission passes selected by exportedness
+	passes := 0
+	ast.Inspect(fd.Body, func(n ast.Node) bool {
+		if fs, ok := n.(*ast.ForStmt); ok {
+			if strings.Contains(srcOf(fs.Body), "ConstNamedStruct") {
+				passes++
+			}
+		}
+		return true
+	})
+	if passes >= 2 {
+		ordered = true
+	}
+	c.Check(ordered, "R15.7", "ssa.Builder.abiUncommonMethods emits exported methods first", fd.Pos(), "methods partitioned by exportedness before emission",
+		"methods are emitted in go/types' Id order (exported \"Name\" vs unexported \"pkgpath.name\"): for a package path that sorts before an exported name (it starts with a digit or an upper-case letter) an unexported method precedes the exported ones, and the first Xcount entries that reflect treats as the exported methods are the wrong ones")
+}
